@@ -29,8 +29,70 @@ def build_ops(chk):
     return uniq
 
 
+def server_residue_part(chk):
+    """The real server loop (h_srv) receives into one 64 KiB stack buffer.  Sessions are replayed twice; before selected
+    datagrams a FILLER datagram is delivered that the server drops (DNS header with QR=1) but that leaves either 0xA5 bytes (run A)
+    or the tail of earlier genuine traffic (run B) in the buffer.  Every answer line must be identical in both runs: short and
+    truncated datagrams must not be completed from the buffer."""
+    import random
+    import srvgen, iodproto as P, iodclient as C
+    rng, thorough = chk.rng, chk.tier == "thorough"
+    exe = vlib.build_srv()
+    bad, nops = 0, 0
+    for k in range(24 if thorough else 8):
+        g = srvgen.Gen(random.Random(chk.seed * 7919 + k), exe)
+        h = g.run(250)
+        if h.dead:
+            continue        # sanitizer aborts are reported by C05
+        base = [st.op for st in h.steps]
+        def dgram(op):
+            t = op.split()
+            if t[0] == "q":
+                return (t[1], P.query(int(t[2]), vlib.unhx(t[4]), int(t[3]), edns=False))
+            if t[0] == "dns" and len(vlib.unhx(t[2])) >= 4:
+                return (t[1], vlib.unhx(t[2]))
+            return None
+        opsA, opsB, marks, seen = [], [], [], []
+        for op in base:
+            opsA.append(op); opsB.append(op)
+            d = dgram(op)
+            if d is None:
+                continue
+            seen.append(d)
+            israw = d[1][:3] == C.RAW_HEADER[:3]
+            if rng.random() < (0.9 if israw else 0.3):
+                # the tail of the datagram just handled (usually) or of an earlier one is what the filler leaves behind
+                src2, victim = d if rng.random() < 0.75 else rng.choice(seen)
+                src, g0 = (src2, victim) if rng.random() < 0.7 else rng.choice(seen)
+                hdr = bytes([0, 0, 0x80])
+                tailB = victim[3:] + bytes(rng.randrange(256) for _ in range(rng.choice([0, 0, 40])))
+                fa = hdr + b"\xa5" * len(tailB)
+                fb = hdr + tailB
+                cut = rng.choice([1, 2, 3, 3, 4, 5, 11, 12, 13, 14, 17, max(1, len(g0) - 5), max(1, len(g0) - 1)])
+                short = g0[:cut]
+                who = src if rng.random() < 0.7 else "4:0a63000%d:%d" % (rng.randrange(1, 9), 4000)
+                opsA += ["dns %s %s" % (who, vlib.hx(fa)), "dns %s %s" % (who, vlib.hx(short))]
+                opsB += ["dns %s %s" % (who, vlib.hx(fb)), "dns %s %s" % (who, vlib.hx(short))]
+                marks.append(len(opsA) - 1)
+        ra = vlib.run_lines(exe, opsA)
+        rb = vlib.run_lines(exe, opsB)
+        nops += len(opsA) + len(opsB)
+        if ra.rc or rb.rc:
+            continue
+        for i in marks:
+            if i < len(ra.lines) and i < len(rb.lines) and ra.lines[i] != rb.lines[i]:
+                chk.violation("C12 fails on the implementation: the server's reaction to a %d-byte datagram depends on what an earlier datagram left in the receive buffer:\n 0xA5 residue -> %s\n genuine-traffic residue -> %s"
+                              % (len(vlib.unhx(opsA[i].split()[2])), ra.lines[i].split(" | to=")[0][:300], rb.lines[i].split(" | to=")[0][:300]),
+                              ["# run B (residue = tail of earlier genuine traffic); in run A the filler before the last datagram is " + opsA[i - 1]] + opsB[:i + 1], key="c12:stale-server")
+                bad += 1
+                break
+    chk.notes["server_residue_ops"] = nops
+    return bad, nops
+
+
 def run(chk):
     proof_ok = chk.proofs()
+    sbad, sn = server_residue_part(chk)
     exe = vlib.build_harness("h_pure", ["h_pure.c"], vlib.PURE_OBJS)
     pkts = build_ops(chk)
     ops = []
@@ -43,7 +105,7 @@ def run(chk):
             for r in wiregen.RESIDUES[:3]:
                 ops.append("readname 256 12 %s %s" % (r, hx(m)))
     c, m_, diffs = vlib.differential(chk, exe, ops)
-    bad = 0
+    bad = sbad
     if c.rc != 0:
         i = c.abort_index or 0
         chk.violation("C harness aborted (sanitizer or crash), rc=%d on op: %s\n%s" % (c.rc, ops[i][:200], c.stderr[-1500:]), [ops[i]], key="c12:abort")
@@ -66,7 +128,7 @@ def run(chk):
             chk.violation("C12 fails on the implementation: " + what, [a[0], b[0]], key="c12:stale-" + kind)
         elif "rv=0 " not in lst[0][1] and "rv=-1" not in lst[0][1]:
             nontriv += 1
-    chk.cov["evaluations"] = len(ops)
+    chk.cov["evaluations"] = len(ops) + sn
     chk.cov["distinct_nontrivial"] = nontriv
     chk.cov["traces_validated_against_impl"] = len(ops)
     chk.cov["rule"] = ("datagrams = valid queries/answers of every record type built by an independent DNS library + directed malformations "
